@@ -6,6 +6,7 @@
 //
 ///////////////////////////////////////////////////////////////////////////////
 #define CPPCMS_SOURCE
+#include <booster/verif_trace.h>
 #include <cppcms/thread_pool.h>
 #include <booster/backtrace.h>
 #include <booster/log.h>
@@ -32,9 +33,11 @@ namespace impl {
 			for(p=queue_.begin();p!=queue_.end();++p) {
 				if(p->first==id) {
 					queue_.erase(p);
+					BOOSTER_VERIF_EMIT("\"e\":\"PCancel\",\"id\":%d,\"ok\":true",id);
 					return true;
 				}
 			}
+			BOOSTER_VERIF_EMIT("\"e\":\"PCancel\",\"id\":%d,\"ok\":false",id);
 			return false;
 		}
 		int post(booster::function<void()> const &job)
@@ -42,6 +45,7 @@ namespace impl {
 			booster::unique_lock<booster::mutex> lock(mutex_);
 			int id=job_id_++;
 			queue_.push_back(std::make_pair(id,job));
+			BOOSTER_VERIF_EMIT("\"e\":\"PPost\",\"id\":%d,\"shut\":%d",id,int(shut_down_));
 			cond_.notify_one();
 			return id;
 		}
@@ -69,6 +73,7 @@ namespace impl {
 			{
 				booster::unique_lock<booster::mutex> lock(mutex_);
 				shut_down_=true;
+				BOOSTER_VERIF_EMIT("\"e\":\"PStop\",\"queued\":%d",int(queue_.size()));
 				cond_.notify_all();
 			}
 
@@ -95,14 +100,21 @@ namespace impl {
 		{
 			for(;;) {
 				booster::function<void()> job;
+#ifdef CPPCMS_VERIF
+				int verif_job_id = -1;
+#endif
 
 				{
 					booster::unique_lock<booster::mutex> lock(mutex_);
 					if(shut_down_)
 						return;
 					if(!queue_.empty()) {
+#ifdef CPPCMS_VERIF
+						verif_job_id = queue_.front().first;
+#endif
 						queue_.front().second.swap(job);
 						queue_.pop_front();
+						BOOSTER_VERIF_EMIT("\"e\":\"PPop\",\"id\":%d",verif_job_id);
 					}
 					else {
 						cond_.wait(lock);
@@ -121,6 +133,7 @@ namespace impl {
 					catch(...) {
 						BOOSTER_ERROR("cppcms") << "Catched unknown exception in thread pool";
 					}
+					BOOSTER_VERIF_EMIT("\"e\":\"PDone\",\"id\":%d",verif_job_id);
 				}
 			} 	
 		}
